@@ -114,7 +114,7 @@ func TestC12(t *testing.T) {
 			cat = append(cat, c12case{Exit: ex, Outs: os, Layout: []string{"main", "named", "two-queues"}[(i+len(ex))%3]})
 		}
 	}
-	n := len(cat) * 9 // thorough: the whole catalogue under each of the three layouts, three times (timing varies)
+	n := len(cat) * 27 // thorough: the whole catalogue under each of the three layouts, nine times (timing varies)
 	if e.Tier == "quick" {
 		n = 128
 	}
